@@ -25,9 +25,18 @@ class QUICOutputbuilder:
             else:
                 self.server_port = self.default_port
 
+    @staticmethod
+    def same_datagram(packet, other):
+        # packets of one captured datagram; timestamps alone do not tell datagrams apart that were captured
+        # within the resolution of a float (about 240 ns for present-day epoch times)
+        if packet.datagram is not None and other.datagram is not None:
+            return packet.datagram is other.datagram
+        return packet.ts == other.ts
+
     def build(self, metadata: bool):
         pn = self.decrypted_traffic[0].src_packet.packet_num
         ts = self.decrypted_traffic[0].src_packet.ts
+        src = self.decrypted_traffic[0].src_packet
         isserver = self.decrypted_traffic[0].src_packet.isserver
         packets = bytearray()
         for frame in self.decrypted_traffic:
@@ -42,15 +51,15 @@ class QUICOutputbuilder:
             elif data is None:
                 continue
 
-            if frame.src_packet.packet_num == pn and frame.src_packet.ts == ts:
+            if frame.src_packet.packet_num == pn and self.same_datagram(frame.src_packet, src):
                 packets.extend(data)
                 continue
             else:  # if packets number changes
-                if frame.src_packet.ts == ts:  # if same ts => same datagram
+                if self.same_datagram(frame.src_packet, src):  # coalesced packets of the same datagram
                     pn = frame.src_packet.packet_num
                     packets.extend(data)
                     continue
-                else:  # if not same ts => different datagram
+                else:  # different datagram
                     if isserver:
                         if not self.ipv6:
                             packet = Ether(src=self.server_mac_address, dst=self.client_mac_address) / IP(
@@ -79,6 +88,7 @@ class QUICOutputbuilder:
 
                     pn = frame.src_packet.packet_num
                     ts = frame.src_packet.ts
+                    src = frame.src_packet
                     isserver = frame.src_packet.isserver
                     packets = bytearray()
                     packets.extend(data)
